@@ -382,6 +382,10 @@ def run_shard(spec, ctx):
         r = random.Random(ctx.seed + 5)
         for cat, text in broken_docs(r):
             J.must_reject(text, cat)
+        for g in structural_texts():
+            for text in (g, 'ver:"3.0"\nx\n<<' + g + '>>\n', 'ver:"3.0"\nx,y\n[<<' + g + '>>],1\n', g + '\n' + g, 'ver:"3.0" gm:<<' + g + '>>\nx\n1\n'):
+                J.feed(text, 'structural')
+                ctx.count('structurally anomalous documents')
         ctx.sample({'broken_by_construction': [list(x) for x in broken_docs(r)[:3]]})
     elif spec['part'] == 'random':
         r = random.Random(ctx.seed * 1000003 + 920 + spec['sub'])
@@ -403,6 +407,22 @@ def run_shard(spec, ctx):
         scalar_part(ctx, hszinc, spec)
 
 
+def structural_texts():
+    """Grid texts that are well-formed token by token but anomalous as a structure (a name used twice, rows that do not
+    match the column line, nothing where something is required). Whether the reader takes or refuses them is its
+    business; how it refuses them is the property's."""
+    out = []
+    for ver in ('3.0', '2.0'):
+        h = 'ver:"%s"' % ver
+        out += [h + '\na,a\n1,2\n', h + '\na,b,a\n1,2,3\n', h + '\nid,id\n@a,@b\n', h + '\na,a\n', h + ' m:1 m:2\na\n1\n', h + ' m m\na\n1\n',
+                h + '\na c:1 c:2\n1\n', h + '\na c c,b\n1,2\n', h + '\na,b\n1\n', h + '\na\n1,2\n', h + '\na\n1,2,3,4,5,6\n', h + '\na,b,c\n,\n',
+                h + '\n\n1\n', h + '\na,\n1,2\n', h + '\n,a\n1,2\n', h + ' ' + h + '\na\n1\n', h + '\n' + h + '\n1\n', h + '\nver\n1\n',
+                h + '\na\n', h + '\n', h, h + '\na\n,\n', h + '\na\n\n\n1\n', h + ' ver:1\na\n1\n', h + '\nname name:1\n1\n',
+                h + '\na a:a\na\n']
+    out += ['ver:"3.0"\na\n{k:1 k:2}\n', 'ver:"3.0"\na\n{k k}\n', 'ver:"3.0"\na\n[{k:1 k:2},{k:1 k:2}]\n', 'ver:"3.0" m:{k:1 k:2}\na\n1\n']
+    return out
+
+
 def scalar_part(ctx, hszinc, spec):
     """parse_scalar: only ValueError-family exceptions may escape."""
     W = refzinc.Writer(None)
@@ -421,6 +441,12 @@ def scalar_part(ctx, hszinc, spec):
               '9999-12-31T23:59:59-12:00 Kiritimati', '0001-01-01T00:00:00Z', '9999-12-31T23:59:59.999999Z', '0001-01-01T00:00:00-00:01 London',
               '[0001-01-01T00:00:00Z New_York]', '{a:9999-12-31T23:59:59Z Tokyo}', 'C(1e400,1)', 'C(9' + '9' * 400 + ',1)', '1e400kg',
               '0001-01-01', '9999-12-31', '00:00:00.0000001', 'T', 'F', 'INF', '-INF', 'NaN', '-', '.', '-.', '1.', '.1', '1..2', '--1', '1e+', '1E-']
+    # containers, and nested grids whose structure is anomalous: at scalar level no grid-level catch-all stands
+    # between the grammar's parse actions and the caller
+    for g in structural_texts():
+        body = g.rstrip('\n')
+        texts += ['<<' + g + '>>', '<<' + body + '>>', '[<<' + g + '>>]', '{k:<<' + g + '>>}']
+    texts += ['[1,2,3]', '{a:1 b:"x" c}', '[[1],[2,[3]]]', '{a:{b:{c:[1]}}}', '[<<ver:"3.0"\na\n1\n>>,<<ver:"2.0"\nb\n2\n>>]']
     n_in = 0
     sj, sn = spec.get('slice', [0, 1])
     for bi, base in enumerate(texts):
